@@ -72,6 +72,11 @@ func headerCases() [][][2]string {
 		{{"Connection", "X-Custom-Hop"}, {"X-Custom-Hop", "1"}, {"X-Kept", "yes"}},
 		{{"Connection", "keep-alive, X-Custom-Hop"}, {"X-Custom-Hop", "1"}, {"Keep-Alive", "timeout=1"}},
 		{{"Connection", "x-custom-hop"}, {"X-Custom-Hop", "1"}},
+		// legal list syntax with empty elements, an empty value, the header twice
+		{{"Connection", "keep-alive,"}, {"X-Kept", "yes"}},
+		{{"Connection", "keep-alive, ,X-Custom-Hop"}, {"X-Custom-Hop", "1"}, {"X-Kept", "yes"}},
+		{{"Connection", ""}, {"X-Kept", "yes"}},
+		{{"Connection", "X-Custom-Hop"}, {"Connection", " , x-real-ip"}, {"X-Custom-Hop", "1"}, {"X-Real-Ip", "203.0.113.7"}},
 	}
 	supplied := map[string]string{"X-Forwarded-Proto": "https", "X-Forwarded-Host": "upstream.example", "X-Forwarded-Port": "8443", "X-Forwarded-For": "203.0.113.7", "X-Real-Ip": "203.0.113.7"}
 	for mask := 0; mask < 1<<len(fwdNames); mask++ {
